@@ -106,6 +106,54 @@ def strip_rust(text):
     return "".join(out)
 
 
+def literals(text):
+    """distinct integer literals (and `1 << k` as 2^k) of a source text, comments and strings removed"""
+    import re
+    t = strip_rust(text)
+    t = re.sub(r'"(?:\\.|[^"\\])*"', '""', t)
+    t = t.replace("..=", " ").replace("..", " ")
+    vals = set()
+    for m in re.finditer(r"(?<![\w.])(\d[\d_]*)(?:usize|isize|u8|u16|u32|u64|u128|i8|i16|i32|i64)?(?![\w.])", t):
+        try:
+            vals.add(int(m.group(1).replace("_", "")))
+        except ValueError:
+            pass
+    for m in re.finditer(r"(?<![\w.])1(?:usize|u32|u64|u16)?<<(\d+)", t):
+        k = int(m.group(1))
+        if k < 40:
+            vals.add(1 << k)
+    for ty, v in (("u8", 255), ("i8", 127), ("u16", 65535), ("i16", 32767)):
+        if re.search(r"(?<![\w])" + ty + r"(?![\w])", t):
+            vals.add(v)
+    return sorted(vals)
+
+
+def all_literals(repo):
+    res = {}
+    for root, _, files in os.walk(os.path.join(repo, "src")):
+        for f in sorted(files):
+            if f.endswith(".rs"):
+                p = os.path.join(root, f)
+                res[os.path.relpath(p, repo)] = literals(open(p, encoding="utf-8", errors="replace").read())
+    return res
+
+
+def new_thresholds(repo):
+    """integer constants (3..200000) that occur in a source file now and did not occur in that file at the
+    baseline: sizes at which the changed code may behave differently (a fast path above a length, a narrower
+    counter, a cap).  The generators add inputs around them (VERIF_THRESHOLDS)."""
+    if not os.path.exists(BASE):
+        return []
+    base = json.load(open(BASE)).get("literals", {})
+    out = set()
+    for f, vals in all_literals(repo).items():
+        old = set(base.get(f, []))
+        for v in vals:
+            if v not in old and 3 <= v <= 200000:
+                out.add(v)
+    return sorted(out)[:10]
+
+
 def fingerprints(repo):
     res = {}
     src = os.path.join(repo, "src")
@@ -143,10 +191,11 @@ if __name__ == "__main__":
         head = subprocess.run(["git", "-C", repo, "rev-parse", "HEAD"], capture_output=True, text=True).stdout.strip()
         dirty = subprocess.run(["git", "-C", repo, "status", "--short"], capture_output=True, text=True).stdout.strip()
         json.dump({"repo_head": head + ("+dirty" if dirty else ""), "normalisation": "comments and white space removed (tools/fingerprint.py strip_rust)",
-                   "files": fingerprints(repo)}, open(BASE, "w"), indent=1)
+                   "files": fingerprints(repo), "literals": all_literals(repo)}, open(BASE, "w"), indent=None)
         print("baseline written for", head)
     else:
         ch, props = drift(repo)
         for f in ch:
             print(f)
         print("escalate:", " ".join(sorted(props)) or "-")
+        print("new integer constants:", new_thresholds(repo))
